@@ -1055,13 +1055,24 @@ func c08FwdPkgIssues(chans [4]*lnwallet.LightningChannel) []string {
 					"(%v, %d adds, state %v)", names[i], pkg.Height,
 					pkg.AckFilter, len(pkg.Adds), pkg.State)
 			}
-			if pkg.SettleFailFilter != nil &&
-				!pkg.SettleFailFilter.IsFull() {
-
-				fail("%s: fwd pkg height %d: settles/fails not "+
-					"acked (%v, %d, state %v)", names[i],
-					pkg.Height, pkg.SettleFailFilter,
-					len(pkg.SettleFails), pkg.State)
+			// A fail is acknowledged atomically with the commitment
+			// that removes the incoming HTLC. Settles are acknowledged
+			// lazily (the ref-carrying copy of a settle that meets a
+			// closing circuit is dropped and only re-forwarded after
+			// the next restart), so only fails are required here.
+			if pkg.SettleFailFilter != nil {
+				for j, u := range pkg.SettleFails {
+					if pkg.SettleFailFilter.Contains(uint16(j)) {
+						continue
+					}
+					if _, ok := u.UpdateMsg.(*lnwire.UpdateFulfillHTLC); ok {
+						continue
+					}
+					fail("%s: fwd pkg height %d: fail #%d (%T) "+
+						"not acked (%v, state %v)", names[i],
+						pkg.Height, j, u.UpdateMsg,
+						pkg.SettleFailFilter, pkg.State)
+				}
 			}
 			if pkg.State == channeldb.FwdStateLockedIn &&
 				len(pkg.Adds)+len(pkg.SettleFails) > 0 {
@@ -1398,7 +1409,11 @@ func c08RunCase(t *testing.T, plan *c08Plan) *c08Result {
 		lab = append(lab, "overlap")
 	}
 	if res.inconclusive != "" {
-		lab = append(lab, "inconclusive")
+		why := res.inconclusive
+		if i := strings.IndexByte(why, ':'); i > 0 {
+			why = why[:i]
+		}
+		lab = append(lab, "inconclusive:"+why)
 	}
 	if len(r.linkFailList()) > 0 {
 		lab = append(lab, "link_failure")
